@@ -438,11 +438,23 @@ def run(ctx):
     ctx.assumptions += [
         "ciborium-ll 0.2.2 (header reader/writer, string segments, UTF-8 chunk parser) is modelled in Cbor/CborCore.v and diffed, not verified",
         "floats are opaque payloads: the model carries (width, bits); f16/f32/f64 conversion is done by the check (python struct), NaN payloads are not compared",
-        "a derive-generated decoder is modelled as the generic item decoder followed by a schema interpretation (Cbor/CborSchema.v); the schema terms of the token types are hand-written (Cbor/TokenSchemas.v) and tied by encoding/decoding every type on both sides",
+        "a derive-generated decoder is modelled as the generic item decoder followed by a schema interpretation (Cbor/CborSchema.v); the schema terms of the token types (Cbor/TokenSchemas.v) are proved equal to the terms regenerated from the Rust declarations on every run (translators/gen_cbor_schemas.py -> Gen/CborSchemas.v, theorem generated_schemas_match) and exercised by encoding/decoding every type on both sides; the interpretation of the attributes is that of concordium_base_derive/src/cbor.rs as read by the translator and CborSchema.v",
         "rust_decimal (string -> Decimal -> rescale) is modelled at the level of its accepted language and result, diffed, not verified",
         "nesting deeper than 64 is outside the claim (DESIGN.md O3): behaviour recorded under notes.deep_nesting_observation",
         "size_of::<Value>() = 32 (reported by the harness and asserted)",
     ]
+    # 0. translator: Rust declarations of the derive(CborSerialize, CborDeserialize) types -> coq/Gen/CborSchemas.v
+    #    (Props/C17.v proves the generated terms equal the hand-written Cbor/TokenSchemas.v)
+    import importlib.util
+    tie_broken = None
+    try:
+        spec = importlib.util.spec_from_file_location("gen_cbor_schemas", os.path.join(c.VERIF, "translators", "gen_cbor_schemas.py"))
+        gcs = importlib.util.module_from_spec(spec)
+        spec.loader.exec_module(gcs)
+        ctx.notes["translator"] = gcs.generate(c.REPO, os.path.join(c.COQ, "Gen", "CborSchemas.v"))
+    except Exception as ex:
+        tie_broken = "translator gen_cbor_schemas failed: %s" % ex
+        ctx.log(tie_broken)
     ok, info = c.coq_prove(ctx)
     proof_broken = None
     if not ok:
@@ -816,6 +828,10 @@ def run(ctx):
         "wrong type, null, key typo, retag, untag, array length/element incl. bignums) under non-canonical writers, decoded with Fail and "
         "Ignore; amounts: Display/JSON of boundary amounts, decimal strings incl. malformed ones at precisions 0..255. "
         "non-trivial = the implementation accepted / produced a value; distinct = canonical case hash")
+    if tie_broken:
+        ctx.violation({"layer": "translator (Rust declarations -> schema terms)", "error": tie_broken},
+                      "the derive(CborSerialize, CborDeserialize) declarations can no longer be translated: %s" % tie_broken[:200],
+                      no_input=not bool(ctx.violations))
     if proof_broken:
         found = bool(ctx.violations)
         ctx.violation({"layer": "Coq proof obligations", "broken": proof_broken},
